@@ -4,9 +4,15 @@ import json, os
 HERE = os.path.dirname(os.path.dirname(os.path.abspath(__file__)))
 
 CHECKS = {
- "C02": ("other", "call-graph reachability (no terminator reachable from the API) over clang-resolved callees",
-         "Decides structural clauses only: R-NOEXIT (no exit/abort reachable from any public API function).",
+ "C02": ("other", "LALR table exploration (exhaustive) + enum-dispatch partial evaluation + call-graph reachability over clang-resolved callees",
+         "Decides three structural clauses: R-LALR (exhaustive exploration of the LALR block parser's configuration space: every sequence of real line kinds is accepted, no error action, stack bounded), R-DISPATCH (every producible token type has a non-escape branch in all 7 writers, by EDPE), R-NOEXIT (no exit/abort reachable from the API). Does not decide that the rendering contains all text.",
          "§3 C02"),
+ "C04": ("other", "enum-dispatch partial evaluation (EDPE) of every writer over t->type: token-type x writer matrix, sibling agreement",
+         "Decides two structural clauses: no writer takes the unknown-token escape for a producible type (text dropped), and LaTeX/OpenDocument emit or descend wherever HTML does. Does not decide word order, escaping or byte equality.",
+         "§3 C04"),
+ "C06": ("other", "must-pass-through / dominator checks on the wrapper functions' CFGs, EDPE over `format`, type-level pointer-to-pointer check",
+         "Decides that every string/DString variant is a thin wrapper (delegates on all paths, sets language, forwards arguments, frees with the right ownership flag), that convert_to_data and convert_to_file build the same package per format, and the CLI's -t table. Byte equality follows because the engine function is shared; it is not itself checked.",
+         "§3 C06"),
  "C05": ("other", "whole-program inventory of global-storage objects and stateful libc calls + call-graph reachability",
          "Decides the 'no hidden history in process globals / libc state' clause: every mutable global and every stateful libc call reachable from a conversion entry point is enumerated and must be allowed by the property's own terms.",
          "§3 C05"),
